@@ -17,6 +17,7 @@ import time
 
 VERIF = os.path.dirname(os.path.abspath(__file__))
 REPO = os.environ.get("VERIF_REPO", "/repo")
+dev_stage = os.environ.get("VERIF_STAGE", "")  # development only: run one stage (by test name) of a check, write no evidence
 WORK = os.path.join(VERIF, ".work")
 MOD = "github.com/containers/nri-plugins"
 NCPU = os.cpu_count() or 4
@@ -70,7 +71,7 @@ def ensure_vgen():
 
 
 # rewrites applied in every build (the shims pass through when no harness hooks them)
-BASE_VGEN = ["-os", "pkg/resmgr/cache/cache.go", "-os", "pkg/resmgr/cache/utils.go", "-sync", "pkg/resmgr/resource-manager.go", "-sync", "pkg/metrics/metrics.go", "-sched", "pkg/resmgr/cache/pod.go", "-time", "pkg/agent/watch/object.go"]
+BASE_VGEN = ["-os", "pkg/resmgr/cache/cache.go", "-os", "pkg/resmgr/cache/utils.go", "-sync", "pkg/resmgr/resource-manager.go", "-sync", "pkg/metrics/metrics.go", "-sched", "pkg/resmgr/cache/pod.go", "-sched", "pkg/resmgr/cache/cache.go", "-time", "pkg/agent/watch/object.go"]
 
 
 def gen_overlay(flags):
@@ -235,6 +236,8 @@ def run_check(pid, tier, replay_file=None):
                   scenarios=0, exhaustive=True, caps=[], samples=[], notes=[], counters={})
     violations, nondet, broken = [], [], []
     for st in c["stages"]:
+        if dev_stage and st["run"] != dev_stage:
+            continue
         ovdir, key = gen_overlay(st.get("vgen", []))
         binary = build(ovdir, key, st["pkg"], bool(st.get("race")))
         env = dict(st.get("env", {}))
@@ -338,8 +341,11 @@ def run_check(pid, tier, replay_file=None):
     )
     ev = dict(property_id=pid, tier=tier, seed=seed, level=c["level"], coverage=cov,
               assumptions=c.get("assumptions", []), wall_s=round(wall, 2), violations=len(new))
-    os.makedirs(os.path.join(VERIF, "evidence"), exist_ok=True)
-    json.dump(ev, open(os.path.join(VERIF, "evidence", pid + ".json"), "w"), indent=1)
+    if not dev_stage:  # a development run of a single stage never replaces the evidence of the whole check
+        os.makedirs(os.path.join(VERIF, "evidence"), exist_ok=True)
+        json.dump(ev, open(os.path.join(VERIF, "evidence", pid + ".json"), "w"), indent=1)
+    else:
+        json.dump(ev, open(os.path.join(WORK, "dev-" + pid + ".json"), "w"), indent=1)
     log("%s %s: rc=%d states=%d transitions=%d evaluations=%d nontrivial=%d outcomes=%d exhaustive=%s wall=%.1fs" % (
         pid, tier, rc, merged["states"], merged["transitions"], merged["evaluations"], merged["distinct_nontrivial"],
         merged["distinct_outcomes"], merged["exhaustive"], wall))
